@@ -172,10 +172,21 @@ struct Exec {
     exp2_calls: Vec<(f64, f64, f64)>,
 }
 
+/// Budget and window of the step clock. One environment is known to be slow *by arithmetic*, not by defect:
+/// when exp2(-1075) comes back as 2^-1074 the guess is up to twice 1/x, the first Newton step lands up to
+/// 2^1074 too low and the iteration then doubles its way back - about 1080 cheap steps, after which it
+/// converges normally. The clock allows for exactly that there and nowhere else.
+fn clock(p: u64, env: FloatEnv) -> (u64, i128) {
+    match env {
+        FloatEnv::ZeroToMinSubnormal => (budget(p) + 1200, 64 + 2 * p as i128 + 700),
+        _ => (budget(p), 64 + 2 * p as i128),
+    }
+}
+
 fn run_once(x: &BigDecimal, t: &Trace, env: FloatEnv, p: u64, e0: i128) -> Exec {
-    let w = 64 + 2 * p as i128;
+    let (ticks_allowed, w) = clock(p, env);
     let fg = FloatHookGuard::install(FloatSite::InvGuessExp2, env);
-    let sg = StepHookGuard::install(budget(p), e0 - w, e0 + w);
+    let sg = StepHookGuard::install(ticks_allowed, e0 - w, e0 + w);
     let r = catch_payload(|| call_inverse(x, t));
     let ticks = sg.ticks();
     let exp2_calls = fg.calls();
@@ -491,6 +502,7 @@ impl Property for C12 {
                         (FloatEnv::Ulp(d), Some(r)) if r != 0.0 && r.abs() >= f64::MIN_POSITIVE => d.abs() <= 16,
                         (FloatEnv::Ulp(d), Some(r)) if r != 0.0 => d.abs() <= 1,
                         (FloatEnv::FlushSubnormal, Some(_)) => true,
+                        (FloatEnv::ZeroToMinSubnormal, Some(r)) => r == 0.0 && ex.exp2_calls.first().map(|c| c.0) == Some(-1075.0),
                         _ => false,
                     };
                     envs.push((*e, adm));
@@ -517,6 +529,11 @@ impl Property for C12 {
             }
             (EnvSel::All, Some(_)) => {
                 obs.reach("exp2_underflowed_natively_fallback_guess");
+                // exp2(-1075): the exact value is a tie between 0 and the smallest subnormal
+                if ex.exp2_calls.first().map(|c| c.0) == Some(-1075.0) {
+                    obs.reach("exp2_tie_at_1075_bits");
+                    envs.push((FloatEnv::ZeroToMinSubnormal, true));
+                }
             }
             (EnvSel::All, None) => {
                 obs.reach("no_exp2_call(shortcut_for_one)");
@@ -538,7 +555,7 @@ impl Property for C12 {
                 RunOut::Watchdog(w) => {
                     outcome = 2;
                     if admissible {
-                        fails.push(fail("L1-terminates", t, &env, p, mode, format!("simulated watchdog: {} after {} ticks (budget {}), iterate exponent ~{}", w.reason, w.ticks, budget(p), w.exponent)));
+                        fails.push(fail("L1-terminates", t, &env, p, mode, format!("simulated watchdog: {} after {} ticks (budget {}), iterate exponent ~{}", w.reason, w.ticks, clock(p, env).0, w.exponent)));
                     } else {
                         obs.reach("stress_watchdog_trip(evidence only)");
                     }
@@ -583,8 +600,10 @@ impl Property for C12 {
             obs.execs_faulted += 1;
             obs.steps += ex.ticks + ex.exp2_calls.len() as u64;
             obs.fault(intern(&format!("exp2_{}{}", env.name(), if adm { "" } else { "(stress)" })));
-            if adm {
+            if adm && env != FloatEnv::ZeroToMinSubnormal {
                 obs.max("newton_ticks_admissible", ex.ticks);
+            } else if adm {
+                obs.max("newton_ticks_tie_environment", ex.ticks);
             }
             if let Some(&(_, real, out)) = ex.exp2_calls.first() {
                 if real != 0.0 && out == 0.0 {
@@ -706,6 +725,7 @@ impl Property for C12 {
             "one_over_x_compared_with_inverse",
             "exp2_ulp+16",
             "exp2_ulp-16",
+            "exp2_tie_at_1075_bits",
             "exp2_flush_subnormal",
         ]
     }
